@@ -3,6 +3,7 @@ package main
 import (
 	"fmt"
 	"go/token"
+	"go/types"
 
 	"golang.org/x/tools/go/ssa"
 )
@@ -63,6 +64,46 @@ func c17All(c *Ctx, g *gossipAnchors) {
 		c17R1(c, g, fn, ws)
 		c17R2(c, g, fn, ws)
 		c17R3(c, g, fn, ws)
+	}
+	// R5: the full local delta is exactly the local node's state from version 0, unfiltered
+	if fn := c.P.Func(gsPkg, "clusterState.LocalDelta"); fn != nil {
+		c.analysed(fnName(fn))
+		shape := false
+		for _, r := range returnsOf(fn) {
+			rv := returnValues(r)[0]
+			// delta{call}: a slice of a one-element array whose element is the deltaEntry call
+			if sl, ok := rv.(*ssa.Slice); ok {
+				if al, ok := sl.X.(*ssa.Alloc); ok {
+					if arr, ok := al.Type().Underlying().(*types.Pointer).Elem().Underlying().(*types.Array); ok && arr.Len() == 1 {
+						for _, rr := range *al.Referrers() {
+							if ia, ok := rr.(*ssa.IndexAddr); ok {
+								for _, r3 := range *ia.Referrers() {
+									if st, ok := r3.(*ssa.Store); ok {
+										if cl, ok := st.Val.(*ssa.Call); ok && commonName(&cl.Call) == gsFn("clusterState).deltaEntry") {
+											_, idOK := loadedField(cl.Call.Args[1], g.localIDF)
+											k, isK := constInt(cl.Call.Args[2])
+											shape = idOK && isK && k == 0
+										}
+									}
+								}
+							}
+						}
+					}
+				}
+			}
+		}
+		loops := false
+		for _, b := range fn.Blocks {
+			for _, s2 := range b.Succs {
+				if s2.Dominates(b) {
+					loops = true
+				}
+			}
+		}
+		c.check(shape && !loops, "C17.R5", fnName(fn)+"/full-unfiltered", fn.Pos(), "LocalDelta() = delta{deltaEntry(localID, 0)}: every entry, tombstones included",
+			"the full local delta is filtered or not taken from version 0: observers that synchronise through a join/leave stream skip past deletion markers and keep deleted keys live")
+	} else {
+		c.fail("C17.R5", "anchor/clusterState.LocalDelta", token.NoPos, "not found")
 	}
 	if writers < 4 {
 		c.fail("C17.R1", "local-writer-set", token.NoPos, fmt.Sprintf("found %d functions writing the local node's entries, expected at least 4 (upsert, delete, leave, compact)", writers))
